@@ -23,6 +23,9 @@ RECURSION_BOUNDS = {
     "std::ptr::drop_glue::<std::io::Error>": 1,
     "std::ptr::drop_glue::<error::ErrorImpl>": 4,
     "std::ptr::drop_glue::<std::boxed::Box<error::ErrorImpl>>": 4,
+    # C08: one retry on a fresh handle is the documented behaviour; a second
+    # nested retry fails the recursion unwinding assertion
+    "procfs::ProcfsHandle::open::<&std::path::Path, flags::OpenFlags>": 2,
 }
 
 ROOT = "root::verif_h_root::"
@@ -87,7 +90,8 @@ RA_STUBS = ["syscalls::unlinkat", "syscalls::openat_follow", "Dir::read_from"]
 C13_OBS = [
     ob("O13.1a", DIR + "dir_remove_all_unlink_ok", "utils::remove_all(dir, name), every name <= L, unlinkat succeeds: refused names ('', '.', '..', any '/') make ZERO syscalls and fail; otherwise exactly unlinkat(dir,name,0) and Ok", stubs=RA_STUBS, covers_may_be_unsat=["rmdir-ed", "scanned", "scan open failed"], cost=5),
     ob("O13.1b", DIR + "dir_remove_all_rmdir_ok", "... unlink fails (any errno), rmdir succeeds: unlinkat(0) then unlinkat(AT_REMOVEDIR), Ok", stubs=RA_STUBS, covers_may_be_unsat=["unlinked", "scanned", "scan open failed"], cost=5),
-    ob("O13.1c", DIR + "dir_remove_all_open_fail", "... unlink, rmdir and the scan open all fail with arbitrary errnos: ENOENT anywhere => Ok, scan open is O_DIRECTORY|O_NOFOLLOW|O_CLOEXEC on (dir,name), other errno => that errno", stubs=RA_STUBS, covers_may_be_unsat=["unlinked", "scanned"], cost=6),
+    ob("O13.1f", DIR + "dir_remove_all_scan_enotempty", "... unlink and rmdir fail with ENOTEMPTY (non-empty directory), scan open succeeds: the open is openat(dir, name, O_DIRECTORY|O_NOFOLLOW|O_CLOEXEC|O_NOCTTY), listing failure is reported, sub-directory fd closed", stubs=RA_STUBS, covers_may_be_unsat=["unlinked", "rmdir-ed", "refused", "scan open failed"], cost=6),
+    ob("O13.1c", DIR + "dir_remove_all_open_fail", "... unlink, rmdir and the scan open all fail with arbitrary errnos: ENOENT anywhere => Ok, scan open is O_DIRECTORY|O_NOFOLLOW|O_CLOEXEC on (dir,name), other errno => that errno", stubs=RA_STUBS, covers_may_be_unsat=["unlinked", "scanned"], tiers=("thorough",), timeout={"thorough": 3000}, cost=6),
     ob("O13.1d", DIR + "dir_remove_all_scan", "... scan open succeeds, directory listing fails with arbitrary errno: ENOENT => final unlink/rmdir attempt, else error; sub-directory fd closed", stubs=RA_STUBS, covers_may_be_unsat=["unlinked", "scan open failed"], tiers=("thorough",), cost=8),
     ob("O13.1e", DIR + "dir_remove_all_any", "... all fault combinations in one query", stubs=RA_STUBS, tiers=("thorough",), cost=10),
 ]
@@ -128,7 +132,7 @@ CP = "capi::procfs::verif_h_capi_procfs::"
 CC = "capi::core::verif_h_capi_core::"
 CAPI_STUBS = ["RootRef::create", "store_error"]
 C17_OBS = [
-    ob("O17.1a", CU + "capi_copy_path_into_buffer", "copy_path_into_buffer for every body <= L bytes (no NUL) x buffer size 0..=L+2: returns the full length, writes exactly min(len, size) bytes equal to the prefix, canaries around the buffer untouched (+ CBMC pointer checks)", features="capi", cost=4),
+    ob("O17.1a", CU + "capi_copy_path_into_buffer", "copy_path_into_buffer for every body <= L bytes (no NUL) x buffer size 0..=L+2: returns the full length, writes exactly min(len, size) bytes equal to the prefix, canaries around the buffer untouched (+ CBMC pointer checks)", features="capi", covers_may_be_unsat=["NULL buffer with non-zero size"], cost=4),
     ob("O17.1b", CU + "capi_copy_path_null_buffer", "same with a NULL buffer and any size: returns the length, writes nothing", features="capi", covers_may_be_unsat=["truncated copy", "buffer larger", "zero-sized"], cost=3),
     ob("O17.2", CU + "capi_borrowed_fd_all", "CBorrowedFd::try_as_borrowed_fd for EVERY i32: negative => InvalidArgument, else the same number", features="capi", cost=1),
     ob("O17.3", CU + "capi_parse_path_null", "parse_path(NULL) => InvalidArgument", features="capi", cost=1),
@@ -154,6 +158,27 @@ C12_OBS = [
 O_RA_TOP = [
     ob("O13.2a", ROOT + "root_remove_all_top_base", "Root::remove_all: utils::remove_all is called exactly once on (resolve_parent fd, base)", stubs=["RootRef::resolve_parent", "utils::remove_all"], covers_may_be_unsat=["trailing slash refused"], cost=5),
     ob("O13.2b", ROOT + "root_remove_all_top_nobase", "Root::remove_all with a trailing slash / empty path: InvalidArgument, nothing removed", stubs=["RootRef::resolve_parent", "utils::remove_all"], covers_may_be_unsat=["removed"], cost=4),
+]
+
+SY = "syscalls::verif_h_syscalls::"
+RX = ["fs::openat", "fs::statat", "fs::statx", "fs::unlinkat", "fs::mkdirat"]
+C05_WRAP = [
+    ob("O5.1a", SY + "sys_openat_flags", "syscalls::openat real body, EVERY flag word and mode: rustix openat receives flags | O_NOFOLLOW|O_CLOEXEC|O_NOCTTY (nothing removed), same dirfd", stubs=RX, cost=2),
+    ob("O5.1b", SY + "sys_openat_follow_flags", "syscalls::openat_follow real body: flags | O_CLOEXEC|O_NOCTTY, O_NOFOLLOW only if the caller set it", stubs=RX, cost=2),
+    ob("O5.1c", SY + "sys_stat_flags", "syscalls::fstatat / statx real bodies: always AT_SYMLINK_NOFOLLOW|AT_NO_AUTOMOUNT|AT_EMPTY_PATH, mask verbatim", stubs=RX, cost=2),
+    ob("O5.1d", SY + "sys_badfd", "openat/fstatat/statx/unlinkat/mkdirat with EVERY negative descriptor other than AT_FDCWD: InvalidFd, rustix never reached", stubs=RX, cost=2),
+]
+
+OF_STUBS = ["ProcfsHandle::readlink", "ProcfsHandle::open", "syscalls::statx", "syscalls::openat_follow"]
+O_OF_LINK = ob("O6.5a", PF + "procfs_open_follow_link", "open_follow on a link, every sub-path <= L / flag word / K: parent = open(base, dir part, O_PATH|O_DIRECTORY); the single following openat(parent, last component, caller flags [+O_DIRECTORY on trailing slash]) is issued only after statx(parent, name) reported the parent's mount id; parent closed", stubs=OF_STUBS, covers_may_be_unsat=["plain open"], cost=7)
+O_OF_NOTLINK = ob("O6.5b", PF + "procfs_open_follow_notlink", "open_follow on a non-link: exactly the no-follow open of the same (slash-stripped) path, nothing followed", stubs=OF_STUBS, covers_may_be_unsat=["link followed", "over-mounted link refused"], cost=5)
+
+CR = "capi::ret::verif_h_capi_ret::"
+C11_CAPI = [
+    ob("O11.c1", CR + "capi_ret_ownedfd_ok", "IntoCReturn for Ok(OwnedFd): returns that descriptor's number, does not close it, no error stored", features="capi", stubs=["store_error"], covers_may_be_unsat=["err"], cost=2),
+    ob("O11.c2", CR + "capi_ret_handle_ok", "IntoCReturn for Ok(Handle): same", features="capi", stubs=["store_error"], covers_may_be_unsat=["err"], cost=2, tiers=("thorough",)),
+    ob("O11.c3", CR + "capi_ret_file_ok", "IntoCReturn for Ok(File): same", features="capi", stubs=["store_error"], covers_may_be_unsat=["err"], cost=2, tiers=("thorough",)),
+    ob("O11.c4", CR + "capi_ret_err", "IntoCReturn for Err: id <= -4096 from store_error, nothing left open", features="capi", stubs=["store_error"], covers_may_be_unsat=["ok"], cost=2),
 ]
 
 PROPERTIES = {
@@ -191,7 +216,7 @@ PROPERTIES = {
                        "returns, it leaves open() only after mount-id equality and f_type==procfs were established on that descriptor.",
         "outside": "what a real kernel reports for real over-mounts (statx/fstatfs contracts assumed); racing mounts; that fsopen/open_tree handles are private; the resolver walks themselves (C07)",
         "assumptions": ["ProcfsResolver::resolve returns an arbitrary descriptor or error", "statx/fstatfs answers arbitrary but consistent per descriptor"],
-        "obligations": [O_FETCH_MNT, O_SAME_MNT, O_IS_PROCFS, O_TRY_FROM_FD, O_OPEN_UNMASKED],
+        "obligations": [O_FETCH_MNT, O_SAME_MNT, O_IS_PROCFS, O_TRY_FROM_FD, O_OPEN_UNMASKED, O_OF_LINK, O_OF_NOTLINK],
     },
     "C08": {
         "explanation": "C08: ProcfsHandle::open on a masked handle with an arbitrary resolver/kernel; the stub for new_unmasked counts handles created during one lookup and may return a handle that is itself masked.",
@@ -203,7 +228,7 @@ PROPERTIES = {
         "explanation": "C07 (partial): the creation-flag refusal of both procfs resolvers is decided for every 32-bit flag word; ProcfsHandle::open's forced O_NOFOLLOW for every flag word (O6.4a); the kernel resolver's fixed confinement mask.",
         "outside": "the emulated procfs walk itself ('..', absolute links, final-component table) and equality of outcomes between the two resolvers on a live /proc: the walk (opath_resolve) is a heap-container loop this engine does not finish (DESIGN §1.2)",
         "assumptions": ["opath_resolve replaced by a recording stub in the dispatch harnesses"],
-        "obligations": [O_RP_CREAT_O2, O_RP_CREAT_OP, O_RP_MASK, O_RP_DISPATCH, O_OPEN_UNMASKED],
+        "obligations": [O_RP_CREAT_O2, O_RP_CREAT_OP, O_RP_MASK, O_RP_DISPATCH, O_OPEN_UNMASKED, O_OF_LINK, O_OF_NOTLINK],
     },
     "C15": {
         "explanation": "C15: may_follow_link is executed with the two fstat answers, geteuid and the cached sysctl all symbolic at full width; the oracle is a transcription of fs/namei.c:may_follow_link.",
@@ -224,4 +249,19 @@ PROPERTIES = {
         "bounds": {"quick": {"PATH_L": 3}, "thorough": {"PATH_L": 4}},
         "obligations": C12_OBS,
     },
+    "C05": {
+        "explanation": "C05: three layers. (1) wrapper bodies with the boundary at the rustix API: the flags every open/stat wrapper adds, for every flag word. "
+                       "(2) the fixed RESOLVE_* masks of both openat2 users for every rflags/oflags. (3) call sites: the operations' harnesses assert for every recorded "
+                       "call that the name is one '/'-free component relative to a descriptor (never AT_FDCWD/absolute), and that opens carry O_NOFOLLOW (create_file, mkdir_all, remove_all scan, procfs open).",
+        "outside": "call sites inside the emulated walks (do_resolve, opath_resolve: not executable here); the O_CLOEXEC added inside syscalls::openat2 itself (variadic libc::syscall unsupported by Kani: openat2 is stubbed as a whole); 'exactly one textual call site of openat_follow' (syntactic)",
+        "assumptions": ["rustix entry points replaced by recording stubs in layer 1", "kernel K / resolver contract stubs in layer 3"],
+        "obligations": C05_WRAP + [O_O2_OPEN, O_O2_RESOLVE, O_RP_MASK, O_OPEN_UNMASKED] + [o for o in C14_OPS if o["id"] in ("O14.5.base", "O14.6.base")] + [C13_OBS[2], C12_OBS[1]],
+    },
+}
+
+NOT_APPLICABLE = {
+    "C16": "the property is about concurrent histories (many threads failing and consuming ids): Kani/CBMC model no threads. The sequential fragment is not decidable here either: "
+           "store_error draws ids with rand's gen_range, whose rejection-sampling loop has no bound an unwinding assertion could establish, Kani cannot stub generic trait methods "
+           "(Rng::gen_range), and the table is a std HashMap behind a Mutex. What IS decided elsewhere: errno derivation per error kind (lemma harnesses error_kind_equiv_*, C10), "
+           "and that only ids <= -4096 cross the C boundary on errors (C11/C17 with store_error as a contract stub).",
 }
